@@ -428,3 +428,124 @@ pub fn run_random(seed: u64, count: usize, out: &mut dyn Write) {
                          "bytes": if o == "panic" { crate::pval::bytes(&m) } else { json!([]) }}));
     }
 }
+
+/// Structural mutations: whole chunks of an uncompressed binary file duplicated, dropped, swapped or moved;
+/// the text of every XML element and the value of every XML attribute replaced by hostile strings (multi-byte
+/// characters at every length, overlong numbers, empty text ...).  Decoders must answer ok or err.
+pub fn run_structure(out: &mut dyn Write) {
+    install_hook();
+    for (target, data) in corpus() {
+        if target == "bin_none" || target == "bin_all" {
+            // header is 32 bytes; chunk = 16 byte frame + stored bytes
+            let mut chunks: Vec<(usize, usize)> = Vec::new();
+            let mut pos = 32;
+            while pos + 16 <= data.len() {
+                let clen = u32::from_le_bytes(data[pos + 4..pos + 8].try_into().unwrap()) as usize;
+                let len = u32::from_le_bytes(data[pos + 8..pos + 12].try_into().unwrap()) as usize;
+                let stored = if clen == 0 { len } else { clen };
+                if pos + 16 + stored > data.len() {
+                    break;
+                }
+                chunks.push((pos, pos + 16 + stored));
+                pos += 16 + stored;
+            }
+            let build = |order: &[usize]| -> Vec<u8> {
+                let mut v = data[..32].to_vec();
+                for &i in order {
+                    v.extend_from_slice(&data[chunks[i].0..chunks[i].1]);
+                }
+                v
+            };
+            let n = chunks.len();
+            let base: Vec<usize> = (0..n).collect();
+            let mut variants: Vec<(String, Vec<u8>)> = Vec::new();
+            for i in 0..n {
+                let mut dup = base.clone();
+                dup.insert(i + 1, i);
+                variants.push((format!("dup{}", i), build(&dup)));
+                let mut dup_end = base.clone();
+                dup_end.insert(n - 1, i);
+                variants.push((format!("dup-late{}", i), build(&dup_end)));
+                let mut del = base.clone();
+                del.remove(i);
+                variants.push((format!("drop{}", i), build(&del)));
+                if i + 1 < n {
+                    let mut sw = base.clone();
+                    sw.swap(i, i + 1);
+                    variants.push((format!("swap{}", i), build(&sw)));
+                }
+                let mut front = base.clone();
+                let x = front.remove(i);
+                front.insert(0, x);
+                variants.push((format!("front{}", i), build(&front)));
+            }
+            for (vn, m) in variants {
+                let id = format!("struct:{}:{}", target, vn);
+                if !start(out, &id) {
+                    continue;
+                }
+                let (o, d) = decode(&target, &m[..]);
+                emit(out, json!({"op": "fault", "ep": id, "kind": "structure", "target": target, "variant": vn, "outcome": o,
+                                 "site": if o == "panic" { d } else { String::new() }}));
+            }
+        } else if target.starts_with("xml") {
+            let text = String::from_utf8_lossy(&data).to_string();
+            let zeros15 = "0".repeat(15);
+            let hostile: Vec<String> = vec![
+                "".into(), " ".into(), "\u{e9}".into(), "\u{e9}".repeat(16), format!("{}\u{e9}{}", zeros15, zeros15),
+                format!("{}\u{1F600}{}", "0".repeat(14), "0".repeat(14)), "-1".into(), "99999999999999999999999".into(),
+                "1e999".into(), "NaN".into(), "-INF".into(), "null".into(), "true".into(), "0x10".into(), "AAAA".into(),
+                "=".into(), "RBX0".into(), "9".repeat(400), "0 1".into(), "1 2 3 4 5 6 7 8 9 10 11".into(),
+            ];
+            // text nodes: between '>' and '<' with something other than whitespace (CDATA sections count as text)
+            let bytes = text.as_bytes();
+            let mut spans: Vec<(usize, usize)> = Vec::new();
+            let mut i = 0;
+            while i < bytes.len() {
+                if bytes[i] == b'>' {
+                    let s = i + 1;
+                    let mut e = s;
+                    while e < bytes.len() && bytes[e] != b'<' {
+                        e += 1;
+                    }
+                    if e > s && !text[s..e].trim().is_empty() {
+                        spans.push((s, e));
+                    }
+                    i = e;
+                } else {
+                    i += 1;
+                }
+            }
+            // attribute values: ="..."
+            let mut i = 0;
+            while i + 1 < bytes.len() {
+                if bytes[i] == b'=' && bytes[i + 1] == b'"' {
+                    let s = i + 2;
+                    let mut e = s;
+                    while e < bytes.len() && bytes[e] != b'"' {
+                        e += 1;
+                    }
+                    spans.push((s, e));
+                    i = e;
+                } else {
+                    i += 1;
+                }
+            }
+            for (k, (s, e)) in spans.iter().enumerate() {
+                for (hi, h) in hostile.iter().enumerate() {
+                    let mut m = String::with_capacity(text.len() + h.len());
+                    m.push_str(&text[..*s]);
+                    m.push_str(h);
+                    m.push_str(&text[*e..]);
+                    let id = format!("struct:{}:span{}:h{}", target, k, hi);
+                    if !start(out, &id) {
+                        continue;
+                    }
+                    let (o, d) = decode(&target, m.as_bytes());
+                    emit(out, json!({"op": "fault", "ep": id, "kind": "structure", "target": target, "variant": format!("span{}:h{}", k, hi), "outcome": o,
+                                     "site": if o == "panic" { d } else { String::new() }}));
+                }
+            }
+        }
+    }
+}
